@@ -809,6 +809,32 @@ func (m *mach) opReads(t *rapid.T) {
 			rec.NonTrivial("restore_ok")
 		}
 	}
+	// empty results: a list-valued member is a JSON array also when there is nothing to list
+	emptyList := func(what string, r httpx.Response, members ...string) {
+		if r.Status != 200 {
+			return // refusing the degenerate request is fine (judged elsewhere); a 200 must have the shape
+		}
+		o := m.parse(r, what)
+		if o == nil {
+			return
+		}
+		for _, k := range members {
+			if l, ok := o[k].([]any); !ok || len(l) != 0 {
+				m.fail("shape|"+what+"|empty_list_not_array|"+k, "%s", trunc(r.Body))
+			}
+		}
+		rec.Class("empty_result_" + what)
+		rec.NonTrivial("empty_result|" + what)
+	}
+	switch rapid.IntRange(0, 3).Draw(t, "empty_result") {
+	case 0:
+		fresh := m.w.MakeOutputs([]uint64{1, 2}, m.w.ActiveID)
+		emptyList("restore_nothing_signed", m.do("POST", "/v1/restore", obj(kv{"outputs", arr(outJSON(fresh[0]), outJSON(fresh[1]))})), "outputs", "signatures")
+	case 1:
+		emptyList("restore_no_outputs", m.do("POST", "/v1/restore", obj(kv{"outputs", arr()})), "outputs", "signatures")
+	case 2:
+		emptyList("checkstate_no_ys", m.do("POST", "/v1/checkstate", obj(kv{"Ys", []string{}})), "states")
+	}
 }
 
 func keysAscending(body []byte) error {
@@ -865,7 +891,7 @@ func (m *mach) opCache(t *rapid.T) {
 	}
 	rec.NonTrivial("cache_hit|" + c.path)
 	rec.Class("cache_identical_replay")
-	near := rapid.SampledFrom([]string{"trailing_space", "query_string", "other_path", "method_get", "reordered_keys", "digit_changed"}).Draw(t, "near_replay")
+	near := rapid.SampledFrom([]string{"trailing_space", "query_string", "other_path", "method_get", "reordered_keys", "digit_changed", "witness_added", "amount_changed"}).Draw(t, "near_replay")
 	body, path, method := c.body, c.path, "POST"
 	switch near {
 	case "trailing_space":
@@ -896,6 +922,24 @@ func (m *mach) opCache(t *rapid.T) {
 		if bytes.Equal(body, c.body) {
 			return
 		}
+	case "witness_added":
+		// the same inputs and outputs, but an input (swap) / output (mint) carries a witness it did not carry before
+		i := bytes.Index(c.body, []byte(`"C":"`))
+		if c.path != "/v1/swap" {
+			i = bytes.Index(c.body, []byte(`"B_":"`))
+		}
+		if i < 0 {
+			return
+		}
+		body = append(append(append([]byte{}, c.body[:i]...), []byte(`"witness":"{\"signatures\":[\"00\"]}",`)...), c.body[i:]...)
+	case "amount_changed":
+		// the amount of the first output is another one: other signatures would be due
+		i := bytes.Index(c.body, []byte(`"outputs":[{"amount":`))
+		if i < 0 {
+			return
+		}
+		j := i + len(`"outputs":[{"amount":`)
+		body = append(append(append([]byte{}, c.body[:j]...), '1'), c.body[j:]...)
 	case "digit_changed":
 		body = append([]byte{}, c.body...)
 		i := bytes.Index(body, []byte(`"B_":"0`))
@@ -946,7 +990,7 @@ func (m *mach) opFault(t *rapid.T) {
 		m.fund(rapid.Uint64Range(8, 300).Draw(t, "fund"))
 		return
 	}
-	endpoint := rapid.SampledFrom([]string{"swap", "mint_quote", "mint", "melt_quote", "checkstate", "restore", "quote_state", "info", "melt", "checkstate_pending", "checkstate_pending", "melt_quote_state_pending"}).Draw(t, "fault_endpoint")
+	endpoint := rapid.SampledFrom([]string{"swap", "mint_quote", "mint", "melt_quote", "checkstate", "restore", "quote_state", "info", "melt", "melt_internal", "checkstate_pending", "checkstate_pending", "melt_quote_state_pending"}).Draw(t, "fault_endpoint")
 	if strings.HasSuffix(endpoint, "_pending") && len(m.pending) == 0 {
 		endpoint = "checkstate"
 	}
@@ -1057,6 +1101,51 @@ func (m *mach) opFault(t *rapid.T) {
 		r = m.do("GET", "/v1/mint/quote/bolt11/"+m.w.M.MintQuotes[0].ID, nil)
 	case "info":
 		r = m.do("GET", "/v1/info", nil)
+	case "melt_internal":
+		// a melt of one of this mint's own invoices: settled between the two quotes, with one Lightning lookup (the
+		// preimage) and writes to both quotes on the way
+		inputs = sp[:1].Proofs()
+		fee := m.w.FeeFor(inputs)
+		if inputs[0].Amount <= fee {
+			return
+		}
+		m.w.DB.Hook = nil
+		m.w.LN.CreateInvoiceErr, m.w.LN.InvoiceStatusErr = false, false
+		own, err := m.w.RequestMintQuote(inputs[0].Amount-fee, nil)
+		if err != nil {
+			return
+		}
+		q, err := m.w.RequestMeltQuote(own.Request, 0)
+		if err != nil {
+			return
+		}
+		if lnFault {
+			m.w.LN.InvoiceStatusErr = true
+		}
+		m.w.DB.Hook = func(c *dbproxy.Call) error {
+			if lnFault {
+				return nil
+			}
+			if failing || n == k {
+				n++
+				fired = true
+				if from {
+					failing = true
+				}
+				return errors.New("MARKER-STORAGE-FAULT /var/lib/mint/mint.sqlite.db: disk I/O error")
+			}
+			n++
+			return nil
+		}
+		r = m.do("POST", "/v1/melt/bolt11", obj(kv{"quote", q.ID}, kv{"inputs", proofsJSON(inputs)}))
+		m.w.DB.Hook = nil
+		m.w.LN.InvoiceStatusErr = false
+		// whatever the fault left half done (when the lookup of the mint quote itself fails the mint pays its own invoice
+		// over Lightning and the inputs stay pending until a poll finds the payment): let the mint finish it on a working
+		// storage before the model re-reads the inputs
+		m.w.Mint.GetMeltQuoteState(ctxBg(), q.ID)
+		m.w.PollMeltQuote(q)
+		m.w.PollMintQuote(own)
 	case "melt":
 		inputs = sp[:1].Proofs()
 		fee := m.w.FeeFor(inputs)
@@ -1111,7 +1200,7 @@ func (m *mach) opFault(t *rapid.T) {
 		o := m.parse(r, "fault_"+endpoint)
 		if o != nil && (len(o) != 2 || !isStr(o["detail"]) || !isNum(o["code"])) {
 			m.fail(fmt.Sprintf("fault_response_shape|%s|storage_call=%d|from=%v", endpoint, k, from), "body %s", r.Body)
-		} else if o != nil && fired && int(o["code"].(float64)) == 10000 && o["detail"] != genericDetail && endpoint != "melt" {
+		} else if o != nil && fired && int(o["code"].(float64)) == 10000 && o["detail"] != genericDetail && endpoint != "melt" && endpoint != "melt_internal" {
 			// a storage failure must be reported with the generic detail
 			m.fail("fault_not_generic|"+endpoint, "body %s", r.Body)
 		}
